@@ -27,6 +27,7 @@
 #include "gm2calc/gm2_uncertainty.h"
 
 #include <cmath>
+#include <limits>
 #include <cstring>
 #include <sstream>
 
@@ -40,7 +41,7 @@ MSSMNoFV_onshell* make_mssm(const MssmPoint& p)
    std::unique_ptr<MSSMNoFV_onshell> m(new MSSMNoFV_onshell());
    const double pi = 3.14159265358979323846;
    m->do_force_output(p.force_output);
-   m->set_alpha_MZ(0.0077552);
+   m->set_alpha_MZ(p.alpha_MZ != 0 ? p.alpha_MZ : 0.0077552);
    m->set_alpha_thompson(0.00729735);
    m->set_g3(std::sqrt(4 * pi * 0.1184));
    m->get_physical().MFt = 173.34;
@@ -145,7 +146,7 @@ MSSMNoFV_onshell* make_mssm_c(const MssmPoint& p)
    ::MSSMNoFV_onshell* h = gm2calc_mssmnofv_new();
    struct Guard { ::MSSMNoFV_onshell* h; ~Guard() { if (h) gm2calc_mssmnofv_free(h); } } g{h};
    const double pi = 3.14159265358979323846;
-   gm2calc_mssmnofv_set_alpha_MZ(h, 0.0077552); gm2calc_mssmnofv_set_alpha_thompson(h, 0.00729735); gm2calc_mssmnofv_set_g3(h, std::sqrt(4 * pi * 0.1184));
+   gm2calc_mssmnofv_set_alpha_MZ(h, p.alpha_MZ != 0 ? p.alpha_MZ : 0.0077552); gm2calc_mssmnofv_set_alpha_thompson(h, 0.00729735); gm2calc_mssmnofv_set_g3(h, std::sqrt(4 * pi * 0.1184));
    gm2calc_mssmnofv_set_MT_pole(h, 173.34); gm2calc_mssmnofv_set_MB_running(h, 4.18); gm2calc_mssmnofv_set_MM_pole(h, 0.1056583715); gm2calc_mssmnofv_set_ML_pole(h, 1.777);
    gm2calc_mssmnofv_set_MW_pole(h, p.MW); gm2calc_mssmnofv_set_MZ_pole(h, p.MZ);
    if (p.mode == 1) {
@@ -433,7 +434,31 @@ THDM* make_thdm_with_sm(const ThdmPoint& p, const gm2calc::SM& sm)
 uint64_t mutate_mssm(MSSMNoFV_onshell& m, int what, double u)
 {
    // a caller changing ITS OWN model (possibly a copy of a shared one) and recalculating the spectrum
-   switch (what % 8) {
+   // every public mutator of the model classes takes part (24 kinds)
+   switch (what % 30) {
+   // a parameter made degenerate AFTER the model was set up, force_output on: the recalculation fails deep inside
+   case 24: m.do_force_output(true); m.get_physical().MVWm = 0; break;
+   case 25: m.do_force_output(true); m.get_physical().MVZ = 0; break;
+   case 26: m.do_force_output(true); m.set_alpha_MZ(std::numeric_limits<double>::infinity()); break;
+   case 27: m.do_force_output(true); m.get_physical().MFm = 0; break;
+   case 28: m.do_force_output(true); m.set_g3(std::numeric_limits<double>::quiet_NaN()); break;
+   case 29: m.do_force_output(true); m.set_vd(0); break;
+   case 8: { const MSSMNoFV_onshell& cm = m; auto ph = cm.get_physical(); ph.MSm(0) *= 1 + 0.01 * u; ph.MSm(1) *= 1 + 0.02 * u; ph.MSvmL *= 1 + 0.01 * u; m.set_physical(ph); } break; // whole pole-mass struct replaced
+   case 9: { const MSSMNoFV_onshell& cm = m; auto ph = cm.get_physical(); ph.MChi(0) *= 1 + 0.01 * u; ph.MCha(0) *= 1 + 0.01 * u; m.set_physical(ph); } break;
+   case 10: m.get_physical().MSm(1) *= 1 + 0.01 * u; break;                  // a pole mass written through the non-const accessor
+   case 11: m.set_MA0(300 + 2000 * u); break;
+   case 12: m.set_alpha_MZ(0.0077552 * (1 + 0.001 * u)); m.set_alpha_thompson(0.00729735 * (1 + 0.0001 * u)); break;
+   case 13: m.set_g3(1.2 + 0.05 * u); break;
+   case 14: m.set_Au(2, 2, -2000 + 4000 * u); m.set_Ad(2, 2, -1000 + 2000 * u); break;
+   case 15: m.set_mq2(2, 2, (500 + 3000 * u) * (500 + 3000 * u)); m.set_mu2(2, 2, (500 + 3000 * u) * (500 + 3000 * u)); m.set_md2(2, 2, (600 + 3000 * u) * (600 + 3000 * u)); break;
+   case 16: m.set_MassG(500 + 3000 * u); break;
+   case 17: m.set_ml2(2, 2, (200 + 2000 * u) * (200 + 2000 * u)); m.set_me2(2, 2, (250 + 2000 * u) * (250 + 2000 * u)); break;
+   case 18: m.set_BMu(m.get_BMu() * (1 + 0.01 * u)); break;
+   case 19: m.set_mHd2(m.get_mHd2() * (1 + 0.01 * u)); m.set_mHu2(m.get_mHu2() * (1 + 0.01 * u)); break;
+   case 20: m.set_vd(m.get_vd() * (1 + 0.001 * u)); m.set_vu(m.get_vu() * (1 - 0.001 * u)); break;
+   case 21: m.do_force_output(u < 0.5); break;
+   case 22: m.set_verbose_output(false); m.set_Ae(2, 2, -3000 + 6000 * u); break;
+   case 23: { auto Ye = m.get_Ye(); Ye(1, 1) *= 1 + 0.001 * u; m.set_Ye(Ye); } break;
    case 0: m.set_TB(2 + 50 * u); break;
    case 1: m.set_Mu((u < 0.2 ? -1 : 1) * (150 + 1500 * u)); break;
    case 2: m.set_ml2(1, 1, (200 + 2000 * u) * (200 + 2000 * u)); break;
@@ -443,8 +468,9 @@ uint64_t mutate_mssm(MSSMNoFV_onshell& m, int what, double u)
    case 6: m.set_Ae(1, 1, -1000 + 2000 * u); break;
    default: m.set_scale(300 + 2000 * u); break;
    }
-   if ((what / 8) % 3 == 0) m.convert_to_onshell(1e-8, 200);
-   else m.calculate_masses();
+   if ((what / 30) % 3 == 0) m.convert_to_onshell(1e-8, 200);
+   else if ((what / 30) % 3 == 1) m.calculate_masses();
+   // else: parameters changed, spectrum not recalculated (the getters hash below shows the object as it is)
    return getters_mssm(m);
 }
 uint64_t mutate_thdm(THDM& m, int what, double u)
